@@ -475,6 +475,24 @@ func runC08() {
 	var runs []string
 	var cases []string
 	var meta []interface{}
+	nsets, totalCases, totalRuns := 0, 0, 0
+	flush := func() { // one Coq file per request set (-shards > 1): evaluated in parallel by the check
+		if *pubShards <= 1 {
+			return
+		}
+		var b strings.Builder
+		b.WriteString(em.file(runs))
+		b.WriteString("Record conc_case := { k_kind : string; k_runs : list nat; k_deadlock : bool; k_final : list (string * list string); k_seq : list (list (string * list string)) }.\n")
+		b.WriteString("Definition conc_cases : list conc_case := [\n" + strings.Join(cases, ";\n") + "\n].\n")
+		writeFile(fmt.Sprintf("shard_%d/observed.v", nsets), []byte(b.String()))
+		ib, _ := json.Marshal(map[string]int{"case_offset": totalCases, "run_offset": totalRuns})
+		writeFile(fmt.Sprintf("shard_%d/index.json", nsets), ib)
+		nsets++
+		totalCases += len(cases)
+		totalRuns += len(runs)
+		em = newEmitter()
+		runs, cases = nil, nil
+	}
 	s := &Summary{Rule: "request sets x schedules: depth-first over the choices at every Database / Transport / callback call up to the preemption bound, then random schedules", Dist: map[string]interface{}{}}
 	kinds := strings.Split(*c08Kinds, ",")
 	perKind := map[string]int{}
@@ -569,14 +587,18 @@ func runC08() {
 			for j := 0; j < *c08Random; j++ {
 				runOne(nil, &rng{s: r.next()})
 			}
+			flush()
 		}
 	}
-	var b strings.Builder
-	b.WriteString(em.file(runs))
-	b.WriteString("Record conc_case := { k_kind : string; k_runs : list nat; k_deadlock : bool; k_final : list (string * list string); k_seq : list (list (string * list string)) }.\n")
-	b.WriteString("Definition conc_cases : list conc_case := [\n" + strings.Join(cases, ";\n") + "\n].\n")
-	writeFile("observed.v", []byte(b.String()))
-	s.Distinct = len(cases)
+	if *pubShards <= 1 {
+		var b strings.Builder
+		b.WriteString(em.file(runs))
+		b.WriteString("Record conc_case := { k_kind : string; k_runs : list nat; k_deadlock : bool; k_final : list (string * list string); k_seq : list (list (string * list string)) }.\n")
+		b.WriteString("Definition conc_cases : list conc_case := [\n" + strings.Join(cases, ";\n") + "\n].\n")
+		writeFile("observed.v", []byte(b.String()))
+		totalCases = len(cases)
+	}
+	s.Distinct = totalCases
 	s.Dist["schedules_per_kind"] = perKind
 	s.Dist["deadlocks"] = deadlocks
 	s.Extra = map[string]interface{}{"cases": meta}
@@ -584,7 +606,7 @@ func runC08() {
 		s.Samples = append(s.Samples, meta[0])
 	}
 	writeSummary(s)
-	fmt.Printf("c08: %d request sets, %d schedules, %d deadlocks\n", k, len(cases), deadlocks)
+	fmt.Printf("c08: %d request sets, %d schedules, %d deadlocks\n", k, totalCases, deadlocks)
 }
 
 func bodies(reqs []*scenario) []interface{} {
